@@ -66,7 +66,56 @@ def rules(model: Model, tier: str) -> List[RuleResult]:
     from .c07 import _tensor_packer
     Pk = RuleResult(PROP, "C16-P", "tuple-valued integrands: TensorPacker segments tile the flat vector and pack() returns the slices unchanged (component-wise means)", min_instances=2)
     _tensor_packer(model, Pk)
-    return [R1, R2, R3, R4, R5, R6, R6f, U, S, N, W, B, *_hy, XS, Pk, *_sub]
+    SV = RuleResult(PROP, "C16-A", "samples are recorded by value (a step that works in place returns the same object every iteration)", min_instances=1)
+    _samples_by_value(model, SV)
+    return [R1, R2, R3, R4, R5, R6, R6f, U, S, N, W, B, *_hy, XS, Pk, SV, *_sub]
+
+
+def _samples_by_value(model: Model, A: RuleResult):
+    """The chain state returned by a step (the built-in proposal or the caller's `custom_step`, which may update its argument in place and
+    return it) is the *same object* from one iteration to the next whenever the step works in place.  A sample must therefore be recorded by
+    value - written into a slot of a pre-allocated tensor, or cloned - never as a reference in a Python container: a list of references to
+    one tensor is nsamples copies of the last point (the integral becomes f(x_last) and the gradient w.r.t. the parameters of log p zero)."""
+    mod = model.module(MCMC)
+    for f in mod.functions.values():
+        if f.parent is not None:
+            continue
+        loops = [l for l in own_nodes(f.node) if isinstance(l, (ast.For, ast.While))]
+        for lp in loops:
+            # names bound in the loop to the result of a call of a parameter (a user-supplied step) or re-bound chain state
+            stepped = set()
+            for n in ast.walk(lp):
+                if isinstance(n, ast.Assign) and isinstance(n.value, ast.Call):
+                    fn = n.value.func
+                    if isinstance(fn, ast.Name) and fn.id in f.params():
+                        for t in n.targets:
+                            for x in ast.walk(t):
+                                if isinstance(x, ast.Name):
+                                    stepped.add(x.id)
+            if not stepped:
+                continue
+            for n in ast.walk(lp):
+                if isinstance(n, ast.Assign) and len(n.targets) == 1 and isinstance(n.targets[0], ast.Subscript) and isinstance(n.value, ast.Name) and n.value.id in stepped:
+                    base = n.targets[0].value
+                    defs = [d.value for d in own_nodes(f.node) if isinstance(d, ast.Assign) and any(isinstance(t, ast.Name) and isinstance(base, ast.Name) and t.id == base.id for t in d.targets)]
+                    is_tensor = any(isinstance(d, ast.Call) and ast.unparse(d.func).startswith(("torch.empty", "torch.zeros", "torch.ones")) or
+                                    (isinstance(d, ast.Call) and isinstance(d.func, ast.Attribute) and d.func.attr.startswith("new_")) for d in defs)
+                    if is_tensor:
+                        A.ok(f.fq, "`%s`: the state a step returned is copied into a slot of a pre-allocated tensor" % norm_stmt(n, 60))
+                    else:
+                        A.bad(f, n, "the state returned by the step is stored by reference in a Python container (`%s`): a step that works in place returns the same "
+                              "object every time, so every stored sample is the last point" % norm_stmt(n, 60))
+                if isinstance(n, ast.Call) and isinstance(n.func, ast.Attribute) and n.func.attr in ("append", "insert", "extend") and n.args:
+                    a = n.args[-1]
+                    if isinstance(a, ast.Name) and a.id in stepped:
+                        A.bad(f, enclosing_stmt(n), "the state returned by the step is recorded by reference (`%s`): a step that updates its argument in place and returns it hands "
+                              "back the same object every iteration, so all recorded samples are the last point (the integral becomes f(x_last), the gradient w.r.t. the "
+                              "parameters of log p zero); record a copy (a slot of a pre-allocated tensor, or .clone())" % ast.unparse(n)[:60])
+                    elif any(isinstance(x, ast.Name) and x.id in stepped for x in ast.walk(a)):
+                        if any(isinstance(c, ast.Call) and isinstance(c.func, ast.Attribute) and c.func.attr == "clone" for c in ast.walk(a)) or isinstance(a, ast.BinOp):
+                            A.ok(f.fq, "`%s`: a copy of the state is recorded" % ast.unparse(n)[:60])
+                        else:
+                            A.undecided(f, enclosing_stmt(n), "cannot interpret how the state is recorded in `%s`" % ast.unparse(n)[:60])
 
 
 def _unused_params(model: Model, U: RuleResult):
